@@ -150,6 +150,15 @@ func c14(c *Ctx) {
 			missingAnchor(r, nme)
 		}
 	}
+	// narrow-integer arithmetic in the payloader builds header fields (layer id << 3 | tid): a shift or sum that
+	// does not fit its type silently drops header bits, so possible wrap-around is an obligation there
+	c.wrapScope, c.wrapShiftOnly = map[string]bool{}, map[string]bool{}
+	if pf := p.Func("codecs.(*H265Payloader).Payload"); pf != nil {
+		for _, f := range append([]*ssa.Function{pf}, pf.AnonFuncs...) {
+			c.wrapScope[core.FuncName(f)] = true
+			c.wrapShiftOnly[core.FuncName(f)] = true
+		}
+	}
 	boundsFor(c, "C14", entries)
 	r.Infof("CTR.twofrag: %d fragment loop(s) recognised and reached (a loop of another shape is not decided)", len(c.fragLoopsSeen))
 	r.Infof("CTR.lenprefix: %d length-prefix/data pair(s) recognised and reached", len(c.lenPairsSeen))
